@@ -701,11 +701,20 @@ def run_impl(case, suspend=False, cancel_at=None, cancel_id=9):
     import signal
     old = signal.signal(signal.SIGALRM, _alarm)
     signal.setitimer(signal.ITIMER_REAL, 10.0)
+    unraisable = []
+    oldhook = sys.unraisablehook
+    sys.unraisablehook = lambda u: unraisable.append("%s: %s" % (type(u.exc_value).__name__, u.exc_value))
     try:
-        return _run_impl(case, suspend, cancel_at, cancel_id)
+        r = _run_impl(case, suspend, cancel_at, cancel_id)
+        # drop the iterator objects' frames now so that finalisers run inside the hook's scope
+        import gc
+        gc.collect()
+        r["unraisable"] = unraisable
+        return r
     except Runaway as e:
-        return {"outcome": ("exn", ("other", "Runaway"), e), "log": [], "states": [], "uses": 0, "srcs": [], "ctx": Ctx(None), "obj": None, "tokens": []}
+        return {"outcome": ("exn", ("other", "Runaway"), e), "log": [], "states": [], "uses": 0, "srcs": [], "ctx": Ctx(None), "obj": None, "tokens": [], "unraisable": unraisable}
     finally:
+        sys.unraisablehook = oldhook
         signal.setitimer(signal.ITIMER_REAL, 0)
         signal.signal(signal.SIGALRM, old)
 
